@@ -44,6 +44,7 @@
  * the last thing written to stderr.
  */
 #include "vh.h"
+#include "wrapalloc.h"
 
 #include <signal.h>
 #include <unistd.h>
@@ -346,6 +347,15 @@ parse_parts(const char * s, size_t * np)
 	return (v);
 }
 
+/*
+ * Every other case (decided by a hash of the case line, so a replayed line
+ * behaves the same) the objects the library allocates - expanded keys, CTR
+ * streams - are handed out 8 mod 16, as a malloc that only guarantees 8-byte
+ * alignment does; the driver's own blocks stay 16-byte aligned.
+ */
+static int g_mis;
+#define LIBALLOC(stmt) do { wa_misalign(g_mis); stmt; wa_misalign(0); } while (0)
+
 /* n bytes at offset al (mod 16), ending exactly at the end of a heap block. */
 static uint8_t *
 place(const uint8_t * src, size_t n, size_t al, void ** tofree)
@@ -461,6 +471,14 @@ main(int argc, char ** argv)
 		if (L.ntok == 0)
 			continue;
 		op = vh_tok(&L, 0);
+		{
+			uint64_t h = 0xcbf29ce484222325ULL;
+			size_t ti;
+
+			for (ti = 0; ti < L.ntok; ti++)
+				h = vh_fnv(h, vh_tok(&L, ti), strlen(vh_tok(&L, ti)) + 1);
+			g_mis = (int)((h >> 17) & 1);
+		}
 		if (op[0] == 'Z') {
 			printf("R Z shani=%" PRIu64 " sse2=%" PRIu64 " sse42=%" PRIu64
 			    " aesni_kx=%" PRIu64 " aesni_blk=%" PRIu64
@@ -580,7 +598,8 @@ main(int argc, char ** argv)
 			if ((klen != 16 && klen != 32) || blen % 16)
 				vh_die("bad K line");
 			kx = place(kb, klen, (al * 3 + 5) & 15, &fk);
-			if ((key = crypto_aes_key_expand(kx, klen)) == NULL)
+			LIBALLOC(key = crypto_aes_key_expand(kx, klen));
+			if (key == NULL)
 				vh_die("crypto_aes_key_expand failed");
 			memset(kx, 0xEE, klen);
 			free(fk);
@@ -630,7 +649,8 @@ main(int argc, char ** argv)
 			if (startblk > (UINT64_MAX - dlen) / 16)
 				vh_die("start block beyond the 64-bit byte position");
 			kx = place(kb, klen, (al * 3 + 5) & 15, &fk);
-			if ((key = crypto_aes_key_expand(kx, klen)) == NULL)
+			LIBALLOC(key = crypto_aes_key_expand(kx, klen));
+			if (key == NULL)
 				vh_die("crypto_aes_key_expand failed");
 			free(fk);
 			nr = refaes_expand(kb, klen, rk);
@@ -638,7 +658,8 @@ main(int argc, char ** argv)
 			ob = place(NULL, dlen, alo, &fo);
 			if (inplace)
 				ob = ib;
-			if ((stream = crypto_aesctr_init(key, nonce)) == NULL)
+			LIBALLOC(stream = crypto_aesctr_init(key, nonce));
+			if (stream == NULL)
 				vh_die("crypto_aesctr_init failed");
 			if (far)
 				crypto_aesctr_verif_seek(stream, startblk);
